@@ -193,6 +193,9 @@ def parse_answer(ans):
     return int(head[5:]), calls
 
 
+_LAST = {}
+
+
 def tie(cases, caps, run_lean):
     """returns evidence dict: compared / same / differing (with samples) / skipped"""
     lines = ['CASE tp']
@@ -213,6 +216,7 @@ def tie(cases, caps, run_lean):
         lines.append(rq)
     ans = run_lean(lines, nproc=1) if want else {}
     same, diff, samples, with_subs, calls = 0, 0, [], 0, 0
+    pairs = []
     for i, rq in want.items():
         got = parse_answer(ans.get('tp ' + rq[2:]))
         real = list(getattr(caps[i], 'csrc', []))
@@ -223,9 +227,45 @@ def tie(cases, caps, run_lean):
                 with_subs += 1
         else:
             diff += 1
+            if got is not None and len(got[1]) == len(real):
+                for (mu, mi, ms), (ru, ri, rs) in zip(got[1], real):
+                    if ms != rs or mu != ru or mi != ri:
+                        pairs.append(dict(definition=cases[i]['src'], family=cases[i].get('family'), model=(mu, mi, ms), code=(ru, ri, rs)))
             if len(samples) < 5:
                 samples.append(dict(definition=cases[i]['src'], model=None if got is None else [(u, ic, s.decode('utf-8', 'replace')) for (u, ic, s) in got[1]],
                                     code=[(u, ic, s.decode('utf-8', 'replace')) for (u, ic, s) in real]))
+    _LAST['pairs'] = pairs
     return dict(compared=same + diff, same=same, differing=diff, with_references=with_subs, compile_calls=calls, unread_forms=skipped, differing_samples=samples,
                 what='calls of Pattern::compile (source text and flags, in order) predicted by the Lean text-pipeline model (Subst.compileCalls: Literal::escape, '
                      'Subpattern::new, Subpatterns::new, subst_subpatterns) vs the CSRC lines of the hook; recorded, not reported (a harmless rewrite of the splice may change the text)')
+
+
+def distinguish(pairs, refmatch, limit=40):
+    """a broken text tie is turned into a failing input where possible: for every regex source on which the model (the property's
+    reading: escape / scoped inclusion of the subpattern source) and the code differ, look for a string the two texts treat
+    differently under the regex crate.  Returns [(pair, witness bytes, model_matches, code_matches)]."""
+    import itertools
+    found = []
+    for pr in pairs[:limit]:
+        (mu, mi, ms), (ru, ri, rs) = pr['model'], pr['code']
+        try:
+            chars = set((ms + rs).decode('utf-8', 'replace'))
+        except Exception:
+            chars = set()
+        alpha = [c for c in sorted(chars) if c.isalnum() or c in ' \t\n,;:-_=+'][:8] + [' ', 'a', 'A', '\t', '\n', 'é', '0', ',']
+        alpha = list(dict.fromkeys(alpha))[:12]
+        words = [''] + [''.join(t) for k in (1, 2, 3) for t in itertools.product(alpha, repeat=k)]
+        reqs = ['P %d %d %s' % (1 if mu else 0, 1 if mi else 0, ms.hex() or '-')] + ['W ' + (w.encode('utf-8').hex() or '-') for w in words]
+        reqs += ['P %d %d %s' % (1 if ru else 0, 1 if ri else 0, rs.hex() or '-')] + ['W ' + (w.encode('utf-8').hex() or '-') for w in words]
+        outs = refmatch(reqs)
+        n = len(words)
+        a, b = outs[1:1 + n], outs[2 + n:2 + 2 * n]
+        if outs[0] != 'OK' or outs[1 + n] != 'OK':
+            if (outs[0] == 'OK') != (outs[1 + n] == 'OK'):
+                found.append((pr, None, outs[0], outs[1 + n]))
+            continue
+        for w, x, y in zip(words, a, b):
+            if x != y and x in '01' and y in '01':
+                found.append((pr, w.encode('utf-8'), x, y))
+                break
+    return found
